@@ -63,6 +63,26 @@ def install_path_models(models, state):
             return EnumV("Option", 1, [a[1]])
         return EnumV("Option", 0, [])
 
+    @R(r"^(core::)?slice::<impl \[.*\]>::(sort|sort_unstable|sort_by|sort_unstable_by|sort_by_key|sort_unstable_by_key|sort_by_cached_key)(::<.*>)?$")
+    def _sort_paths(ex, c, a):
+        """directory names are arbitrary, so the order sorting puts them in is an arbitrary permutation: a solver choice"""
+        v = deref(a[0])
+        items = v.items if hasattr(v, "items") else None
+        lo, hi = (getattr(v, "lo", 0), getattr(v, "hi", None))
+        if items is None or not all(isinstance(deref(x), PathV) for x in items):
+            raise Unsupported("sort of " + repr(v)[:40])
+        hi = len(items) if hi is None else hi
+        import itertools
+        perms = list(itertools.permutations(range(lo, hi)))
+        k = ex.choose([(i, z3.BoolVal(True)) for i in range(len(perms))]) if len(perms) > 1 else 0
+        seg = [items[j] for j in perms[k]]
+        items[lo:hi] = seg
+        return UNIT
+
+    @R(r"^Vec::<.*>::(dedup|dedup_by|dedup_by_key)(::<.*>)?$")
+    def _dedup_paths(ex, c, a):
+        return UNIT          # abstract directories are pairwise distinct
+
     @R(r"^get_file_search_paths_from_env$")
     def _env(ex, c, a):
         state["env_consulted"] += 1
